@@ -595,3 +595,55 @@ def deep_repr(e, depth=0):
     if e.k == "agg":
         return "%s::%s{%s}" % (e.a, e.b, ", ".join(deep_repr(o, depth + 1) for o in (e.c or [])))
     return repr(e)
+
+
+INT_BITS = {"u8": 8, "u16": 16, "u32": 32, "u64": 64, "u128": 128, "usize": 64,
+            "i8": 7, "i16": 15, "i32": 31, "i64": 63, "i128": 127, "isize": 63, "bool": 1}
+
+
+def int_bits_of_expr(fn, e):
+    """upper bound on the number of value bits of an integer expression (by its static type where it
+    is visible), or None"""
+    if e is None:
+        return None
+    if e.k == "const":
+        v = e.a
+        if isinstance(v, bool):
+            return 1
+        if isinstance(v, int) and v >= 0:
+            return max(1, v.bit_length())
+        return None
+    if e.k == "cast":
+        return INT_BITS.get(str(e.b))
+    if e.k == "local":
+        f_ = e.b or fn
+        try:
+            return INT_BITS.get(f_.locals[e.a]["t"])
+        except Exception:
+            return None
+    if e.k == "call":
+        c = e.a
+        if c.name == "len":
+            return 63
+        try:
+            return INT_BITS.get(c.fn.locals[c.dest["l"]]["t"])
+        except Exception:
+            return None
+    return None
+
+
+def cast_is_narrowing(fn, e):
+    """e is an integer cast that may change the value (target has fewer value bits than the source
+    may need)"""
+    if e.k != "cast":
+        return False
+    tb = INT_BITS.get(str(e.b))
+    if tb is None:
+        return False
+    v = evaluate(e.a, {})
+    if isinstance(v, int) and not isinstance(v, bool):
+        return not (0 <= v < (1 << tb))
+    sb = int_bits_of_expr(fn, e.a)
+    if sb is None:
+        sb = 64
+    return sb > tb
